@@ -69,6 +69,7 @@ pub fn read_directories(
         root_dir_offset_length,
         leaf_dir_offset,
         &filter_range,
+        &mut Vec::new(),
     )?;
 
     Ok(tiles)
@@ -127,11 +128,15 @@ pub async fn read_directories_async(
         root_dir_offset_length,
         leaf_dir_offset,
         &filter_range,
+        &mut Vec::new(),
     )
     .await?;
 
     Ok(tiles)
 }
+
+/// Maximum number of nested leaf directory levels that are followed while reading directories.
+const MAX_DIRECTORY_DEPTH: usize = 64;
 
 /// Get (inclusive) end of range bounds.
 ///
@@ -157,7 +162,16 @@ async fn fn_name(
     (dir_offset, dir_length): (u64, u64),
     leaf_dir_offset: u64,
     filter_range: &FilterRangeTraits,
+    ancestors: &mut Vec<(u64, u64)>,
 ) -> Result<()> {
+    // leaf pointers come from the input: refuse cycles and absurd nesting instead of recursing forever
+    if ancestors.len() > MAX_DIRECTORY_DEPTH || ancestors.contains(&(dir_offset, dir_length)) {
+        return Err(std::io::Error::new(
+            std::io::ErrorKind::InvalidData,
+            "Leaf directories are nested too deeply or point back to themselves.",
+        ));
+    }
+
     seek_start([reader], [dir_offset])?;
     let directory = read_directory([reader], [dir_length], [compression])?;
     let range_end = range_end_inc(filter_range).unwrap_or(u64::MAX);
@@ -176,14 +190,18 @@ async fn fn_name(
                 )
             })?;
 
-            add_await([fn_name(
+            ancestors.push((dir_offset, dir_length));
+            let result = add_await([fn_name(
                 reader,
                 tiles,
                 compression,
                 (leaf_offset, u64::from(entry.length)),
                 leaf_dir_offset,
                 filter_range,
-            )])?;
+                ancestors,
+            )]);
+            ancestors.pop();
+            result?;
             continue;
         }
 
